@@ -561,6 +561,10 @@ fn build_registry() -> Vec<TypeEntry> {
         // --- arrays
         [u32; 0], [u32; 1], [u64; 3], [B; 5], [Vec<u32>; 0], [Vec<u32>; 2], [Option<u8>; 3], [[u8; 2]; 2],
         [(u8, bool); 2], [Digest; 2], [PolyB; 2], [u128; 2], [[Vec<u16>; 2]; 2], [X; 1], [bool; 7],
+        // --- static lengths around the sponge rate (10), the digest length (5) and the state size (16): `Tip5::hash` must
+        //     be variable-length hashing of the encoding for every one of them (a fixed-length shortcut would collide domains)
+        [B; 4], [B; 6], [B; 9], [B; 10], [B; 11], [B; 15], [B; 16], [B; 17], [B; 20], [u64; 5], [u32; 10], [bool; 10],
+        (Digest, Digest), (X, X, X, B), ([B; 5], Digest), (Digest, [u64; 2], B), [Digest; 3], [X; 3], (u128, u128, u64), [[B; 5]; 2],
         // --- tuples
         (u32, u64), (Vec<u32>, u8), (u8, Vec<u32>), (Vec<u8>, Vec<u16>), (Ph, u32), (u32, Ph), (Ph, Ph),
         (Option<u32>, bool, Vec<bool>), (u8, u16, u32, u64), (u8, Vec<u8>, u16, Vec<u16>, u32),
